@@ -17,6 +17,7 @@ open Qlibc Qlibc.Str
     lines SIZE X                            -> ok <n> <line>/<off> ...
     tok X D                                 -> ok <n> <tok>/<stop>/<off> ... buf <block>
     tokenizer X D                           -> ok <n> <tok> ...
+    cpyov BUF D S SIZE | ncpyov BUF D S SIZE NB -> ok <block> ret <D>   (dst, src in one block)
     comma N                                 -> ok <string> alloc 15
     ip4 X | email X | test CLASS X          -> true | false
     dupf s X | dupf d N | dupf ss X Y       -> ok <string> allocs 1024[,2048…]
@@ -147,6 +148,18 @@ def step (_ : Unit) (ws : List String) : Unit × String :=
            | .ok ts => s!"ok {ts.length}" ++ String.join (ts.map fun t => s!" {hx t}")
            | .error f => faultStr f)
         | _, _ => "bad-op"
+    | ["cpyov", x, d, s, size] => match arg x, nat? d, nat? s, nat? size with
+        | .ok b, some d, some s, some size =>
+          (match qstrcpyOv b d s size with
+           | .ok r => s!"ok {hx r} ret {d}"
+           | .error f => faultStr f)
+        | _, _, _, _ => "bad-op"
+    | ["ncpyov", x, d, s, size, nb] => match arg x, nat? d, nat? s, nat? size, nat? nb with
+        | .ok b, some d, some s, some size, some nb =>
+          (match qstrncpyOv b d s size nb with
+           | .ok r => s!"ok {hx r} ret {d}"
+           | .error f => faultStr f)
+        | _, _, _, _, _ => "bad-op"
     | ["comma", n] => match int? n with
         | some z =>
           (match qstrCommaNumber z with
